@@ -468,6 +468,16 @@ def prove(check, props_file, theorems, extra_targets=()):
     if any(err for err in gen_status.values()):
         # theorems proved about the snapshot, not about the current source
         discharged = 0
+    if ok and check.tier == 'thorough':
+        # independent re-check of the compiled theorem file and everything below it
+        mod = 'Selium.' + os.path.basename(props_file)[:-2]
+        with Lock('coq'):
+            rc, cout = sh(['coqchk', '-o', '-silent', '-Q', 'theories', 'Selium', '-Q', 'gen', 'SeliumGen', mod], cwd=COQ, timeout=1800)
+        m = re.search(r'\* Axioms:\s*(.*?)\n\s*\n', cout, re.S)
+        axioms = m.group(1).strip() if m else 'unparsed'
+        check.coverage.setdefault('coqchk', {})[mod] = {'exit': rc, 'axioms': axioms}
+        if rc != 0 or axioms != '<none>':
+            check.obligation_broken('coqchk of %s (exit %s, axioms: %s)' % (mod, rc, axioms[:200]), cout[-2000:])
     # a check may prove several theorem files: the counts add up
     check.coverage['obligations'] = check.coverage.get('obligations', 0) + len(theorems)
     check.coverage['discharged'] = check.coverage.get('discharged', 0) + discharged
